@@ -244,7 +244,7 @@ func draw(rt *rapid.T) Scenario {
 		sc.FaultKind = "outage"
 	}
 	unavailable := []string{simprom.ModeRefused, simprom.ModeStall, simprom.ModeHTTP500, simprom.ModeHTTP503, simprom.ModeJSONServerErr, simprom.ModeReset, simprom.ModeDialBlackHole}
-	anyMode := append([]string{simprom.ModeTruncated, simprom.ModeGarbage, simprom.ModeBadData, simprom.ModeExecution, simprom.ModeNotFound, simprom.ModeJSONInternal, simprom.ModeWrongType}, unavailable...)
+	anyMode := append([]string{simprom.ModeTruncated, simprom.ModeTruncClean, simprom.ModeJSONCanceled, simprom.ModeGarbage, simprom.ModeBadData, simprom.ModeExecution, simprom.ModeNotFound, simprom.ModeJSONInternal, simprom.ModeWrongType}, unavailable...)
 	ups := 1
 	if sc.Replica {
 		ups = 2
